@@ -131,6 +131,14 @@ fn check_one<CS: BbsCiphersuite>(rep: &Report, ck: &str, c: &Case) -> CheckResul
             Ok(s) => s,
             Err(er) => return rep.fail(ck, "update-failed", format!("update at position {}: {:?}", pos, er), cj(Some(k))),
         };
+        // in every second step the updated signature is first offered for the vector it was updated FROM (the one
+        // the previous signature has just been accepted for), before anything else is verified
+        if k % 2 == 0 && newv != old {
+            rep.eval(ck, 1);
+            if upd.verify(pk, Some(&cur), hdr).is_ok() {
+                return rep.fail(ck, "updated-signature-verifies-for-earlier-vector", format!("after step {} (position {}): the updated signature, offered first for the previous vector, is accepted", k, pos), cj(Some(k)));
+            }
+        }
         cur[pos] = newv;
         rep.eval(ck, 1);
         if let Err(er) = upd.verify(pk, Some(&cur), hdr) {
